@@ -9,6 +9,8 @@ import Driver.C09
 import Driver.C11
 import Driver.C12
 import Driver.C13
+import Driver.C14
+import Driver.C15
 import Driver.C16
 import Driver.C17
 import Driver.C20
@@ -27,6 +29,8 @@ def dispatch (j : Json) : Except String Json := do
   | "C11" => Drv.C11.handle j
   | "C12" => Drv.C12.handle j
   | "C13" => Drv.C13.handle j
+  | "C14" => Drv.C14.handle j
+  | "C15" => Drv.C15.handle j
   | "C16" => Drv.C16.handle j
   | "C17" => Drv.C17.handle j
   | "C20" => Drv.C20.handle j
